@@ -205,7 +205,7 @@ def stream_wide_superset(ctx):
 def run(ctx, built):
     extraction(ctx)
     TS.stream_tree(ctx, built, ctx.scale(10, 120), with_counts=True, maxdim=2, name="S-tree+counts")
-    TS.stream_harvest(ctx, built, ctx.scale(8, 80), maxdim=3, max_rows=ctx.scale(120, 300))      # buckets of every combination, wherever its columns sit in the table
+    TS.stream_harvest(ctx, built, ctx.scale(16, 100), maxdim=3, max_rows=ctx.scale(120, 300))      # buckets of every combination, wherever its columns sit in the table
     stream_wide_superset(ctx)
     stream_supersets(ctx)
     stream_processes(ctx)
